@@ -97,6 +97,8 @@ OPTS = {"SGD": (torch.optim.SGD, {"lr": 0.05}), "Adam": (torch.optim.Adam, {}), 
 
 def generate(rng):
     prim = gen_primary(rng, "p0", kinds=STOCK_KINDS + ["TapePrimary"], dtypes=(None, None, "float64"), cost=rng.choice([0.0, 1e-3, 5e-3]))
+    if prim["kind"] == "TapePrimary":
+        prim["params"]["style"] = "lognormal"   # the coarse 'grid' tapes can coincide by chance: freshness would be undecidable
     pkind = prim["kind"]
     d = gen_derivative(rng, "d0", prim, kinds=OPTION_KINDS + ["VarianceSwap"], steps=rng.choice([2, 3, 4, 6]))
     derivs = [d]
